@@ -259,6 +259,12 @@ def run(ctx):
     te = lf["lattice_traverse_edges"]
     incs = [s for s in paths.stores(te) if s["path"].endswith("info.fanin")]
     ctx.check(p4, sorted((s["path"], s["op"]) for s in incs) == [("node->info.fanin", "="), ("x->link->to->info.fanin", "++")], key(te, "fanin"), te.where(te.root), "fan-in is not reset and counted once per link into its destination (%s)" % [(s["path"], s["op"]) for s in incs])
+    # the counts of *other* nodes are incremented, so every count is zeroed before the first increment:
+    # the reset may not share a loop with the counting
+    rst = [s_ for s_ in incs if s_["op"] == "="]
+    cnt = [s_ for s_ in incs if s_["op"] == "++"]
+    fused = any(te.enclosing(r_["node"], ("For", "While", "Do")) is not None and c_["node"] in set(te.walk(te.enclosing(r_["node"], ("For", "While", "Do")))) for r_ in rst for c_ in cnt)
+    ctx.check(p4, bool(rst) and bool(cnt) and not fused, key(te, "reset-before-count"), te.where(te.root), "fan-in counts are zeroed in the same loop that increments the counts of successor nodes: increments made while visiting nodes earlier in the list are lost, those nodes are never expanded and the traversal (best path, forward pass) dies there")
     re_ = lf["lattice_reverse_edges"]
     incs = [s for s in paths.stores(re_) if s["path"].endswith("info.fanin")]
     ctx.check(p4, sorted((s["path"], s["op"]) for s in incs) == [("node->info.fanin", "++"), ("node->info.fanin", "=")], key(re_, "fanout"), re_.where(re_.root), "fan-out is not reset and counted once per exit (%s)" % [(s["path"], s["op"]) for s in incs])
